@@ -207,6 +207,7 @@ fn c03_1b_mpsc_bulk_end_contract() {
 
 //@ obligation: C03.2a
 //@ kind: K1
+//@ playback: yes
 //@ complete: yes
 //@ functions: mpsc::BlockPtr::pack, BlockPtr::unpack, Queue::push_index
 //@ statement: for a real (64-aligned) block pointer and every id < 64: unpack(pack(p,id)) = (p,id); setting and clearing the bit-63 closing
